@@ -58,6 +58,29 @@ def leaf_trace(node, val, out=None, loops=()):
     return out
 
 
+def leaf_trace_iterated(node, val, trips=2, out=None, it=()):
+    """Like leaf_trace, but every loop body is run `trips` times (bounds are opaque, so the trip count is a
+    choice of the walk): events are (leaf key, iteration vector)."""
+    if out is None:
+        out = []
+    if isinstance(node, A.Block):
+        for c in node.children:
+            leaf_trace_iterated(c, val, trips, out, it)
+    elif isinstance(node, A.IfThenElse):
+        leaf_trace_iterated(node.then if eval_guard(node.condition, val) else node.else_, val, trips, out, it)
+    elif isinstance(node, A.IfThen):
+        if eval_guard(node.condition, val):
+            leaf_trace_iterated(node.then, val, trips, out, it)
+    elif isinstance(node, A.ForLoop):
+        for k in range(trips):
+            leaf_trace_iterated(node.body, val, trips, out, it + ((node.loop_var_name, k),))
+    elif isinstance(node, A.NullASTNode):
+        pass
+    else:
+        out.append((leaf_key(node), it))
+    return out
+
+
 def show(node, ind=0):
     """Own tree printer (ASTStringifier.map_IfThenElse crashes on a stray +)."""
     p = "  " * ind
